@@ -42,7 +42,7 @@ from typing import (
 # 📥 Project-Specific Imports
 # -----------------------------------------------------------------------------
 from .base_interpreter import BaseInterpreter
-from .events import AfterEvent, DoneEvent, Event
+from .events import AfterEvent, DoneEvent, Event, ScopedDoneEvent
 from .exceptions import (
     ActorSpawningError,
     ImplementationMissingError,
@@ -1076,6 +1076,7 @@ class Interpreter(BaseInterpreter[TContext, TEvent]):
         self,
         invocation: InvokeDefinition,
         service: Callable[..., Awaitable[Any]],
+        scope: Optional[Any] = None,
     ) -> None:
         """Wrapper coroutine that runs an invoked service and handles its result.
 
@@ -1118,10 +1119,11 @@ class Interpreter(BaseInterpreter[TContext, TEvent]):
             )
 
             # ✅ Service completed, send a 'done' event with the result data.
-            done_event = DoneEvent(
-                type=f"done.invoke.{invocation.id}",
-                data=result,
-                src=invocation.id,
+            #    Stamped with the activation that STARTED the service: a
+            #    result still queued when the invoking state is left (and
+            #    perhaps re-entered) must not drive the new activation.
+            done_event = self._scoped_done(
+                f"done.invoke.{invocation.id}", result, invocation.id, scope
             )
             await self.send(done_event)
             logger.info(
@@ -1151,10 +1153,8 @@ class Interpreter(BaseInterpreter[TContext, TEvent]):
                 exc_info=True,
             )
             # Send an 'error' event so the machine can transition to a failure state.
-            error_event = DoneEvent(
-                type=f"error.platform.{invocation.id}",
-                data=e,
-                src=invocation.id,
+            error_event = self._scoped_done(
+                f"error.platform.{invocation.id}", e, invocation.id, scope
             )
             # 🚨 If nothing handles the error event, the failure is
             #    unhandled and must be observable rather than merely logged.
@@ -1182,11 +1182,14 @@ class Interpreter(BaseInterpreter[TContext, TEvent]):
             service: The service implementation or MachineNode from logic.
             owner_id: The ID of the state that owns this invocation.
         """
+        # 🏷️ The activation of the invoking state this invocation belongs to.
+        scope = (owner_id, self._activation.get(owner_id, 0))
+
         # 🎭 Case 1: The service is a MachineNode, so we spawn it as an actor.
         if isinstance(service, MachineNode):
             # Create a task to manage the actor's lifecycle and handle onDone/onError.
             task = asyncio.create_task(
-                self._spawn_and_manage_actor(invocation, service)
+                self._spawn_and_manage_actor(invocation, service, scope)
             )
             self.task_manager.add(owner_id, task)
             return
@@ -1197,14 +1200,37 @@ class Interpreter(BaseInterpreter[TContext, TEvent]):
             # condition, ensuring the task is registered before the service
             # code runs.
             await asyncio.sleep(0)
-            await self._invoke_service_task(invocation, service)
+            await self._invoke_service_task(invocation, service, scope)
 
         task = asyncio.create_task(_invoke_wrapper())
         # Register the task with its owner for lifecycle management.
         self.task_manager.add(owner_id, task)
 
+    def _scoped_done(
+        self, event_type: str, data: Any, src: str, scope: Optional[Any]
+    ) -> DoneEvent:
+        """Builds a completion event stamped with its invocation's activation.
+
+        Args:
+            event_type (str): `done.invoke.<id>` or `error.platform.<id>`.
+            data (Any): The result or the exception.
+            src (str): The invoke id.
+            scope (Optional[Any]): `(owner state id, activation)` captured when
+                the service was started, or `None` to leave it unstamped.
+
+        Returns:
+            DoneEvent: The event to send.
+        """
+        event = ScopedDoneEvent(type=event_type, data=data, src=src)
+        if scope is not None:
+            self._scope_event(event, scope[0], scope[1])
+        return event
+
     async def _spawn_and_manage_actor(
-        self, invocation: InvokeDefinition, actor_machine: MachineNode
+        self,
+        invocation: InvokeDefinition,
+        actor_machine: MachineNode,
+        scope: Optional[Any] = None,
     ) -> None:
         """Spawns, starts, and manages an actor, sending events on completion.
 
@@ -1263,10 +1289,11 @@ class Interpreter(BaseInterpreter[TContext, TEvent]):
                     "💥 Invoked machine '%s' ended in error; firing onError.",
                     invocation.src,
                 )
-                error_event = DoneEvent(
-                    type=f"error.platform.{invocation.id}",
-                    data=failure,
-                    src=invocation.id,
+                error_event = self._scoped_done(
+                    f"error.platform.{invocation.id}",
+                    failure,
+                    invocation.id,
+                    scope,
                 )
                 await self.send(error_event)
                 for plugin in self._plugins:
@@ -1274,10 +1301,11 @@ class Interpreter(BaseInterpreter[TContext, TEvent]):
                 return
 
             # ✅ Child finished cleanly (reached a top-level final state).
-            done_event = DoneEvent(
-                type=f"done.invoke.{invocation.id}",
-                data=child_interpreter.context,  # Return child's final context
-                src=invocation.id,
+            done_event = self._scoped_done(
+                f"done.invoke.{invocation.id}",
+                child_interpreter.context,  # Return child's final context
+                invocation.id,
+                scope,
             )
             await self.send(done_event)
             for plugin in self._plugins:
@@ -1303,10 +1331,8 @@ class Interpreter(BaseInterpreter[TContext, TEvent]):
                 e,
                 exc_info=True,
             )
-            error_event = DoneEvent(
-                type=f"error.platform.{invocation.id}",
-                data=e,
-                src=invocation.id,
+            error_event = self._scoped_done(
+                f"error.platform.{invocation.id}", e, invocation.id, scope
             )
             await self.send(error_event)
             for plugin in self._plugins:
